@@ -1,21 +1,26 @@
 (* Action.v -- model of doit/action.py (PythonAction.execute result classification, CmdAction
-   exit-status classification, the save/set/restore discipline on sys.stdout/sys.stderr),
-   doit/task.py Task.execute / Stream._get_out_err.  Definitions only. *)
+   exit-status classification, the save/set/restore discipline on sys.stdout/sys.stderr and the
+   Writer/StringIO capture), doit/task.py Task.execute / Stream._get_out_err.  Definitions only. *)
 From DoitV Require Export Base.
 Open Scope Z_scope.
 
-(* ---- what an action returns to Task.execute: None | TaskFailed | TaskError ---- *)
-Inductive aout := AOk | AFailed | AError.
-Definition aout_z (a : aout) : Z := match a with AOk => 0 | AFailed => 1 | AError => 2 end.
+(* ---- what an action gives back to Task.execute: None | TaskFailed | TaskError, or nothing at
+   all because an exception leaves `execute` (APropagates) ---- *)
+Inductive aout := AOk | AFailed | AError | APropagates.
+Definition aout_z (a : aout) : Z := match a with AOk => 0 | AFailed => 1 | AError => 2 | APropagates => 3 end.
 
-(* ---- python-action: the value the callable produced, by top-level tag ----
-   action.py 472-513.  RRaises = the callable raised an Exception subclass. *)
-Inductive rtag := RTrue | RFalse | RNone | RStr | RDict | RTaskFailed | RTaskError | ROther | RRaises.
-Definition all_rtags := [RTrue; RFalse; RNone; RStr; RDict; RTaskFailed; RTaskError; ROther; RRaises].
+(* ---- python-action: how the callable ended, by top-level tag ----
+   action.py 472-513.  RRaises = the callable raised an Exception subclass.
+   RBaseExc = it raised a BaseException that is not an Exception (SystemExit from sys.exit(),
+   KeyboardInterrupt, GeneratorExit, a user subclass of BaseException): `except Exception`
+   (474) does not apply, the `finally` clause (481-492) runs, the exception leaves execute. *)
+Inductive rtag := RTrue | RFalse | RNone | RStr | RDict | RTaskFailed | RTaskError | ROther | RRaises | RBaseExc.
+Definition all_rtags := [RTrue; RFalse; RNone; RStr; RDict; RTaskFailed; RTaskError; ROther; RRaises; RBaseExc].
 
 Definition py_classify (t : rtag) : aout :=
   match t with
   | RRaises => AError            (* except Exception -> TaskError("PythonAction Error") *)
+  | RBaseExc => APropagates      (* not caught *)
   | RFalse => AFailed            (* returned_value is False *)
   | RTrue | RNone => AOk
   | RStr => AOk                  (* result := value *)
@@ -33,9 +38,18 @@ Definition py_sets_values (t : rtag) : bool := match t with RDict => true | _ =>
 Definition cmd_classify (rc : Z) : aout :=
   if rc >? 125 then AError else if negb (rc =? 0) then AFailed else AOk.
 
+(* CmdAction(callable): what computing the command string did (action.py 199-203, expand_action
+   154-156): XRaises = the callable raised an Exception -> TaskError; XBaseExc = it raised
+   another BaseException -> leaves execute (no process started, no stream touched) *)
+Inductive xtag := XString | XRaises | XBaseExc.
+Definition cmd_execute (x : xtag) (rc : Z) : aout :=
+  match x with XRaises => AError | XBaseExc => APropagates | XString => cmd_classify rc end.
+
 (* ---- Task.execute (task.py 470-483) ----
    One executed action contributes: its outcome, its `result` attribute (None = no result) and its
-   `values` dict (association list, later keys win on merge). *)
+   `values` dict (association list, later keys win on merge).  An action whose exception
+   propagates ends the loop like a failing one (the exception leaves Task.execute; result and
+   values keep what the actions before gave). *)
 Record act := { a_out : aout; a_result : option Z; a_values : list (Z * Z) }.
 
 Fixpoint dict_set (d : list (Z * Z)) (k v : Z) : list (Z * Z) :=
@@ -65,49 +79,177 @@ Fixpoint task_execute (acts : list act) (res : option Z) (vals : list (Z * Z)) (
 Definition live_out (verbosity : Z) : bool := negb (verbosity =? 0) && negb (verbosity =? 1).
 Definition live_err (verbosity : Z) : bool := negb (verbosity =? 0).
 
-(* writes of an action: (is_stderr, chunk id).  With capture on, everything written is captured,
-   per stream and in order; the live copy is the same sequence iff the stream is shown. *)
+(* writes of an action: (is_stderr, chunk id), in program order *)
 Definition chunks (err : bool) (ws : list (bool * Z)) : list Z :=
   map snd (filter (fun w => Bool.eqb (fst w) err) ws).
-Record captured := { c_out : list Z; c_err : list Z; c_live_out : list Z; c_live_err : list Z }.
-Definition py_capture (verbosity : Z) (ws : list (bool * Z)) : captured :=
-  {| c_out := chunks false ws; c_err := chunks true ws;
-     c_live_out := if live_out verbosity then chunks false ws else [];
-     c_live_err := if live_err verbosity then chunks true ws else [] |}.
 
-(* ---- the process-global stream cell (sys.stdout; sys.stderr is handled identically) ----
-   PythonAction.execute with capture: old := cell; cell := Writer_i; ... finally cell := old.
-   [kwargs_fail]: _prepare_kwargs raises InvalidTask.  In the code as it was, that call sat
-   between the swap and the try/finally (action.py 469), so the restore was skipped; the repaired
-   code computes kwargs before the swap.  The flag [legacy] selects the old placement so that the
-   defect stays stated (C17_restore_kwargs_refuted) next to the theorem about the current code. *)
-Inductive stream := SOrig | SWriter (i : nat).
-Definition stream_z (s : stream) : Z := match s with SOrig => 0 | SWriter i => 1 + znat i end.
+(* ---- the process-global stream cells sys.stdout / sys.stderr ----
+   The two cells are handled by the same code, independently; the model is one cell, with the
+   channel [b] (false = stdout, true = stderr) as a parameter of the step function.
 
-Inductive sop := Enter (i : nat) (kwargs_fail : bool) | Exit (i : nat).
-Record sstate := { s_cell : stream; s_saved : nat -> stream; s_live : nat -> bool }.
-Definition s_init : sstate := {| s_cell := SOrig; s_saved := fun _ => SOrig; s_live := fun _ => false |}.
+   Values a cell can hold / that can be passed as `out`/`err`:
+     SNone        the Python value None (only as `out`/`err` argument: no live stream)
+     SOrig        the object that was in the cell when the observed program started
+     SLive k      some other file-like object (a sink), named k
+     SWriter i f  the Writer created by execution i of a python-action (action.py 447-451): it
+                  writes into the StringIO of execution i and then into f (the `out`/`err` it
+                  was given), if any
+
+   PythonAction.execute (action.py 430-492), for each cell:
+     capture_io:            old := cell; cell := Writer_i(out)          ... finally: cell := old; self.out := StringIO_i.getvalue()
+     not capture_io, out:   old := cell; cell := out                    ... finally: cell := old
+     not capture_io, None:  untouched
+   The `finally` clause is executed however the callable ended, also when it raised an exception
+   that `except Exception` does not catch ([Exit i e] carries the way it ended, [e]; RBaseExc
+   included).
+   [MFail]: _prepare_kwargs raises InvalidTask.  In the code as it was, that call sat between the
+   swap and the try/finally (action.py 469), so the restore was skipped; the repaired code computes
+   kwargs before the swap.  The flag [legacy] selects the old placement so that the defect stays
+   stated (C17_restore_kwargs_legacy_refuted) next to the theorem about the current code. *)
+Inductive stream := SNone | SOrig | SLive (k : nat) | SWriter (i : nat) (fwd : stream).
+Definition stream_z (s : stream) : Z :=
+  match s with SOrig => 0 | SWriter i _ => 1 + znat i | SLive k => 500 + znat k | SNone => -5 end.
+
+Inductive emode := MFail | MCapture (fwd : stream) | MRedirect (tgt : stream) | MKeep.
+(* action.py 437-462: what happens to a cell given task.io.capture and the out/err argument *)
+Definition mode_for (capture : bool) (live : stream) : emode :=
+  if capture then MCapture live else match live with SNone => MKeep | _ => MRedirect live end.
+
+Inductive sop :=
+| Enter (i : nat) (mo me : emode)     (* execution i starts: what it does to stdout / to stderr *)
+| Write (err : bool) (c : Z)          (* the running code writes chunk c to sys.stderr / sys.stdout *)
+| Exit (i : nat) (e : rtag).          (* the callable of execution i ended the way e says *)
+
+Record sstate := mkS {
+  s_cell : stream;                    (* the cell *)
+  s_saved : nat -> stream;            (* local variable old_stdout of execution i *)
+  s_live : nat -> bool;               (* execution i has something to restore *)
+  s_cap : nat -> bool;                (* execution i captures (sets self.out in the finally) *)
+  s_buf : nat -> list Z;              (* StringIO of execution i *)
+  s_attr : nat -> option (list Z);    (* attribute self.out of the action of execution i *)
+  s_orig : list Z;                    (* what was written into the original stream *)
+  s_sink : nat -> list Z }.           (* what was written into the object SLive k *)
+Definition s_init : sstate :=
+  mkS SOrig (fun _ => SOrig) (fun _ => false) (fun _ => false) (fun _ => []) (fun _ => None) [] (fun _ => []).
 Definition updn {A} (f : nat -> A) (k : nat) (v : A) : nat -> A := fun x => if Nat.eqb x k then v else f x.
 
-Definition sstep (legacy : bool) (s : sstate) (o : sop) : sstate :=
-  match o with
-  | Enter i kf =>
-      if kf then
-        if legacy then {| s_cell := SWriter i; s_saved := s_saved s; s_live := s_live s |}   (* swapped, never restored *)
-        else s                                                                               (* raises before the swap *)
-      else {| s_cell := SWriter i; s_saved := updn (s_saved s) i (s_cell s); s_live := updn (s_live s) i true |}
-  | Exit i =>
-      if s_live s i then {| s_cell := s_saved s i; s_saved := s_saved s; s_live := updn (s_live s) i false |} else s
+Definition add_buf (s : sstate) (i : nat) (c : Z) : sstate :=
+  mkS (s_cell s) (s_saved s) (s_live s) (s_cap s) (updn (s_buf s) i (s_buf s i ++ [c])) (s_attr s) (s_orig s) (s_sink s).
+Definition add_orig (s : sstate) (c : Z) : sstate :=
+  mkS (s_cell s) (s_saved s) (s_live s) (s_cap s) (s_buf s) (s_attr s) (s_orig s ++ [c]) (s_sink s).
+Definition add_sink (s : sstate) (k : nat) (c : Z) : sstate :=
+  mkS (s_cell s) (s_saved s) (s_live s) (s_cap s) (s_buf s) (s_attr s) (s_orig s) (updn (s_sink s) k (s_sink s k ++ [c])).
+
+(* stream.write(c): Writer.write (action.py 360-363) goes through its writers in order *)
+Fixpoint deliver (t : stream) (c : Z) (s : sstate) : sstate :=
+  match t with
+  | SNone => s
+  | SOrig => add_orig s c
+  | SLive k => add_sink s k c
+  | SWriter i f => deliver f c (add_buf s i c)
   end.
-Definition srun (legacy : bool) (ops : list sop) : sstate := fold_left (sstep legacy) ops s_init.
+
+Definition enter_swap (s : sstate) (i : nat) (new : stream) (cap : bool) : sstate :=
+  mkS new (updn (s_saved s) i (s_cell s)) (updn (s_live s) i true) (updn (s_cap s) i cap)
+      (if cap then updn (s_buf s) i [] else s_buf s) (s_attr s) (s_orig s) (s_sink s).
+
+Definition sstep (legacy b : bool) (s : sstate) (o : sop) : sstate :=
+  match o with
+  | Enter i mo me =>
+      match (if b then me else mo) with
+      | MFail =>
+          if legacy then mkS (SWriter i SNone) (s_saved s) (s_live s) (s_cap s) (s_buf s) (s_attr s) (s_orig s) (s_sink s)
+                                                        (* swapped, never restored *)
+          else s                                        (* raises before the swap *)
+      | MCapture f => enter_swap s i (SWriter i f) true
+      | MRedirect t => enter_swap s i t false
+      | MKeep => mkS (s_cell s) (s_saved s) (updn (s_live s) i false) (s_cap s) (s_buf s) (s_attr s) (s_orig s) (s_sink s)
+      end
+  | Write e c => if Bool.eqb e b then deliver (s_cell s) c s else s
+  | Exit i _ =>                                          (* the finally clause: whatever e is *)
+      if s_live s i then
+        mkS (s_saved s i) (s_saved s) (updn (s_live s) i false) (s_cap s) (s_buf s)
+            (if s_cap s i then updn (s_attr s) i (Some (s_buf s i)) else s_attr s) (s_orig s) (s_sink s)
+      else s
+  end.
+Definition srun (legacy b : bool) (ops : list sop) : sstate := fold_left (sstep legacy b) ops s_init.
 
 (* properly nested sequences: each action exits before the enclosing one does (in particular
    sequential execution, and anything a single thread can do) *)
-Definition sop_id (o : sop) : nat := match o with Enter i _ => i | Exit i => i end.
-(* [i] names one execution of one action (its local variables old_stdout/old_stderr), so an
-   execution nested inside it has another name *)
+Definition sop_ids (o : sop) : list nat := match o with Enter i _ _ => [i] | Exit i _ => [i] | Write _ _ => [] end.
+Definition ids_of (l : list sop) : list nat := flat_map sop_ids l.
+(* [i] names one execution of one action (its local variables old_stdout/old_stderr/output), so
+   an execution nested inside it has another name *)
 Inductive nested : list sop -> Prop :=
 | n_nil : nested []
-| n_fail i l : nested l -> nested (Enter i true :: l)
-| n_app i l1 l2 : nested l1 -> nested l2 -> ~ In i (map sop_id l1) ->
-                  nested (Enter i false :: l1 ++ Exit i :: l2).
+| n_fail i l : nested l -> nested (Enter i MFail MFail :: l)
+| n_write e c l : nested l -> nested (Write e c :: l)
+| n_app i mo me e l1 l2 : mo <> MFail -> me <> MFail -> nested l1 -> nested l2 -> ~ In i (ids_of l1) ->
+                          nested (Enter i mo me :: l1 ++ Exit i e :: l2).
+
+(* what the correspondence check looks at: the cell, self.out of the listed executions (-1 =
+   None, else -2 followed by the chunks), the original stream (-3 ...), the listed sinks (-4 ...) *)
+Definition attr_z (a : option (list Z)) : list Z := match a with None => [-1] | Some l => -2 :: l end.
+Definition observe (ids sinks : list nat) (s : sstate) : list Z :=
+  stream_z (s_cell s) :: flat_map (fun i => attr_z (s_attr s i)) ids ++ -3 :: s_orig s
+    ++ flat_map (fun k => -4 :: s_sink s k) sinks.
+
+(* ---- one python-action / one task / one run, seen as such a sequence ----
+   An action writes [as_ws] and then its callable ends the way [as_tag] says.  Task.execute hands
+   every action the streams of Stream._get_out_err(verbosity) -- the cells themselves, looked up
+   when the task starts; the runners execute one task at a time starting from the original
+   streams, so these are SOrig. *)
+Record aspec := { as_id : nat; as_ws : list (bool * Z); as_tag : rtag }.
+Definition wops (ws : list (bool * Z)) : list sop := map (fun w => Write (fst w) (snd w)) ws.
+Definition live_of (shown : bool) : stream := if shown then SOrig else SNone.
+Definition act_ops (capture : bool) (v : Z) (a : aspec) : list sop :=
+  Enter (as_id a) (mode_for capture (live_of (live_out v))) (mode_for capture (live_of (live_err v)))
+    :: wops (as_ws a) ++ [Exit (as_id a) (as_tag a)].
+(* task.py 476-480: the loop ends at the first action that does not succeed *)
+Fixpoint task_ops (capture : bool) (v : Z) (acts : list aspec) : list sop :=
+  match acts with
+  | [] => []
+  | a :: r => act_ops capture v a ++ match py_classify (as_tag a) with AOk => task_ops capture v r | _ => [] end
+  end.
+Fixpoint task_outcome (acts : list aspec) : aout :=
+  match acts with
+  | [] => AOk
+  | a :: r => match py_classify (as_tag a) with AOk => task_outcome r | o => o end
+  end.
+(* the actions Task.execute starts: the successful prefix and the first unsuccessful one *)
+Fixpoint started (acts : list aspec) : list aspec :=
+  match acts with
+  | [] => []
+  | a :: r => a :: match py_classify (as_tag a) with AOk => started r | _ => [] end
+  end.
+(* a run of tasks that form one dependency chain (runner.py run_tasks; default options: the first
+   task that does not succeed ends the run); each task has its own io.capture setting and may have
+   teardown actions: registered when the task is started (runner.py 190-191), executed by finish()
+   in reverse order of registration (252-260) -- run_all calls finish() in a `finally` clause
+   (279-283), so also when an exception escaped from an action.  [tds]: the teardowns registered
+   so far.  (Teardown actions whose own exception escapes are not modelled.) *)
+Record tspec := { t_capture : bool; t_acts : list aspec; t_teardown : list aspec }.
+Fixpoint run_ops (v : Z) (tasks : list tspec) (tds : list sop) : list sop :=
+  match tasks with
+  | [] => tds
+  | t :: r =>
+      let tds' := task_ops (t_capture t) v (t_teardown t) ++ tds in
+      task_ops (t_capture t) v (t_acts t) ++
+        match task_outcome (t_acts t) with AOk => run_ops v r tds' | _ => tds' end
+  end.
+Fixpoint run_outcome (tasks : list tspec) : aout :=
+  match tasks with
+  | [] => AOk
+  | t :: r => match task_outcome (t_acts t) with AOk => run_outcome r | o => o end
+  end.
+
+(* what one action leaves behind when Task.execute runs it on the original streams *)
+Record captured := { c_out : option (list Z); c_err : option (list Z);      (* self.out / self.err *)
+                     c_live_out : list Z; c_live_err : list Z;              (* shown on the original streams *)
+                     c_cell_out : stream; c_cell_err : stream }.            (* sys.stdout / sys.stderr afterwards *)
+Definition py_capture (capture : bool) (verbosity : Z) (ws : list (bool * Z)) (e : rtag) : captured :=
+  let ops := act_ops capture verbosity {| as_id := 0; as_ws := ws; as_tag := e |} in
+  let so := srun false false ops in
+  let se := srun false true ops in
+  {| c_out := s_attr so 0%nat; c_err := s_attr se 0%nat; c_live_out := s_orig so; c_live_err := s_orig se;
+     c_cell_out := s_cell so; c_cell_err := s_cell se |}.
